@@ -262,6 +262,83 @@ def code_pair_matrix(rep: Any) -> None:
         rep.candidate("ignore: " + key + f" (error [{ecode}], ignore [{ig}])", f"error code {ecode}, ignore code {ig}, declared parent {parent}", {"error": ecode, "ignore": ig}, replay)
 
 
+def module_ignore_scope(rep: Any) -> None:
+    """K1c: when does a '# type: ignore' comment silence the whole module?  fastparse.parse with the
+    source-extracted ASTConverter.get_lineno / translate_stmt_list on generated module heads; the
+    solver chooses the first statement (assignment, def, async def, class), the number of decorator
+    lines, where the ignore comment sits and whether it is coded.  Oracle (documented rule): the whole
+    module is ignored iff the comment is on a line before the first statement begins, and a decorated
+    definition begins at its first decorator."""
+    import mypy.fastparse as FP
+    from mypy.errors import Errors
+    from mypy.nodes import Block
+    from mypy.options import Options
+
+    K = Kernel("mypy.fastparse", ["parse", "ASTConverter.get_lineno", "ASTConverter.translate_stmt_list"], closure=False)
+    rep.kernels_from(K)
+
+    class Conv(FP.ASTConverter):
+        get_lineno = K["ASTConverter.get_lineno"]
+        translate_stmt_list = K["ASTConverter.translate_stmt_list"]
+
+    K.ns["ASTConverter"] = Conv
+    KINDS = ["x = 1", "def f(): pass", "async def f(): pass", "class F: pass"]
+    PLACES = ["none", "comment line before", "decorator 1", "decorator 2", "statement line"]
+    ctx = Ctx(max_paths=200000)
+    found: dict = {}
+    n = {"p": 0, "module": 0, "line": 0}
+
+    def body(c: Ctx) -> None:
+        kind = c.choose("first_statement", len(KINDS))
+        ndec = c.choose("decorators", 3) if kind != 0 else 0
+        place = PLACES[c.choose("ignore_on", len(PLACES))]
+        coded = bool(c.bool("ignore_is_coded"))
+        if (place == "decorator 1" and ndec < 1) or (place == "decorator 2" and ndec < 2):
+            return
+        tag = "  # type: ignore" + ("[misc]" if coded else "")
+        lines = []
+        if place == "comment line before":
+            lines.append("#" + tag.strip()[1:])
+        elif bool(c.bool("plain_comment_line_first")):
+            lines.append("# just a comment")
+        for i in range(ndec):
+            lines.append(f"@deco{i}" + (tag if place == f"decorator {i + 1}" else ""))
+        lines.append(KINDS[kind] + (tag if place == "statement line" else ""))
+        lines.append("y: int = ''")
+        src = "\n".join(lines) + "\n"
+        o = Options()
+        errors = Errors(o)
+        tree = K["parse"](src, "m.py", "m", errors, o)
+        whole = len(tree.defs) == 1 and isinstance(tree.defs[0], Block) and tree.defs[0].is_unreachable
+        want = place == "comment line before"
+        n["p"] += 1
+        n["module" if whole else "line"] += 1
+        c.stats["assert_queries"] += 1
+        if whole == want:
+            c.stats["discharged"] += 1
+        else:
+            c.stats["refuted"] += 1
+            found.setdefault(("an ignore comment inside the first statement (" + place + f" of `{KINDS[kind].split('(')[0].split(' =')[0]}`) silences the whole module") if whole else "an ignore comment before the first statement does not silence the module", (src, whole))
+
+    ctx.explore(body)
+    rep.add_ctx("K1c scope of an ignore comment at the top of a module", ctx, outcomes=dict(n))
+    rep.twin("K1c: module-level and line-level ignores both reached", n["module"] > 0 and n["line"] > 0)
+    rep.bounds.append("K1c: first statement one of assignment / def / async def / class with 0-2 decorator lines; ignore comment absent, on a comment line before, on a decorator line or on the statement line; bare or coded; an optional plain comment line first")
+    for key, (src, whole) in found.items():
+        rep.sample({"kernel": "module ignore scope", "class": key, "source": src})
+
+        def replay(d: str, src: str = src, whole: bool = whole) -> tuple[bool, str]:
+            with open(os.path.join(d, "prog.py"), "w") as f:
+                f.write(src.replace("@deco0", "@staticmethod").replace("@deco1", "@staticmethod"))
+            env = dict(os.environ)
+            env.pop("PYTHONPATH", None)
+            p = subprocess.run([sys.executable, "-m", "mypy", "--no-incremental", "--no-error-summary", "prog.py"], cwd=d, capture_output=True, text=True, env=env, timeout=300)
+            last_error_shown = "Incompatible types in assignment" in p.stdout
+            return last_error_shown == whole, f"program:\n{src}mypy exit {p.returncode}: {p.stdout.strip()[:400] or '(no output)'}"
+
+        rep.candidate("ignore: " + key, src, {"source": src}, replay)
+
+
 def run(rep: Any, tier: str) -> None:
     KE, KB = load()
     rep.kernels_from(KE)
@@ -292,6 +369,7 @@ def run(rep: Any, tier: str) -> None:
         for k, v in fnd.items():
             found.setdefault(k, v)
     code_pair_matrix(rep)
+    module_ignore_scope(rep)
     rep.add_ctx("K1 ignore / error-code exactness", tot, outcomes=counts)
     rep.twin("K1: shown, suppressed and unused-ignore outcomes all reached", counts["shown"] > 0 and counts["suppressed"] > 0 and counts["unused"] > 0)
     for key, (errs, ignores, states, warn, got, want) in found.items():
